@@ -11,6 +11,8 @@
 -/
 import FontcProps.C07
 import FontcProofs.Confluence
+import FontcProps.C18
+import FontcProps.C06
 
 namespace Fontc.C01
 open Fontc Fontc.VarModel
@@ -191,5 +193,17 @@ theorem conflict_order_needed :
     exact absurd this (by decide)
 
 end Race
+
+end Fontc.C01
+
+/-! ### (ii) more hash-ordered cores whose result is proved independent of the iteration order -/
+
+namespace Fontc.C01
+
+/-- Name-id allocation (`StaticMetadata::new`, fontir/src/ir/static_metadata.rs, as repaired by c4dd162 / ba69b97):
+    the `names` HashMap may be iterated in any order. -/
+theorem name_allocation_order_independent (x : Fontc.Names.Input) (order₁ order₂ : List Fontc.Names.NameKey)
+    (h : order₁.Perm order₂) : Fontc.Names.alloc order₁ x = Fontc.Names.alloc order₂ x :=
+  Fontc.C18.alloc_perm_invariant x order₁ order₂ h
 
 end Fontc.C01
